@@ -13,6 +13,7 @@
 #include <map>
 #include <set>
 #include <sstream>
+#include <streambuf>
 #include <string>
 #include <vector>
 #if __cplusplus >= 201703L
@@ -44,6 +45,7 @@ static string unhex(const string& s) {
 }
 
 // canonical tree: storage kind, integer value, float bits, string bytes in hex, members in document order
+static int UNTERMINATED = 0;   // strings met by show() whose byte at [size] is not NUL (every string the library hands out is documented as terminated)
 static void show(JsonVariantConst v, string& o) {
   const VariantData* d = VariantAttorney::getData(v);
   if (!d) { o += "?"; return; }
@@ -60,7 +62,7 @@ static void show(JsonVariantConst v, string& o) {
     case VariantType::Double: { double f = v.as<double>(); uint64_t b; memcpy(&b, &f, 8); snprintf(buf, 48, "d%016llx", (unsigned long long)b); o += buf; break; }
 #endif
     case VariantType::LinkedString:
-    case VariantType::OwnedString: { JsonString s = v.as<JsonString>(); o += "S" + hexs(s.c_str(), s.size()); break; }
+    case VariantType::OwnedString: { JsonString s = v.as<JsonString>(); o += "S" + hexs(s.c_str(), s.size()); if (s.c_str()[s.size()] != 0) UNTERMINATED++; break; }
     case VariantType::RawString: { JsonString s = d->asRawString(); o += "R" + hexs(s.c_str(), s.size()); break; }
     case VariantType::Array: {
       o += "["; bool first = true;
@@ -70,7 +72,7 @@ static void show(JsonVariantConst v, string& o) {
       o += "{"; bool first = true;
       for (JsonPairConst kv : v.as<JsonObjectConst>()) {
         if (!first) o += ","; first = false;
-        o += hexs(kv.key().c_str(), kv.key().size()); o += ":"; show(kv.value(), o); }
+        o += hexs(kv.key().c_str(), kv.key().size()); if (kv.key().c_str()[kv.key().size()] != 0) UNTERMINATED++; o += ":"; show(kv.value(), o); }
       o += "}"; break; }
   }
 }
@@ -152,6 +154,8 @@ struct Spy : Allocator {
   string log;
   bool logging = false;
   size_t requested = 0;    // total bytes requested by successful and failed calls
+  size_t cur = 0, peak = 0; // bytes currently held, and their high-water mark since markPeak()
+  void markPeak() { peak = cur; }
   long nalloc = 0, nrealloc = 0, nfree = 0, nfailed = 0;
   bool bad = false;
   explicit Spy(int i = 0) : id(i) {}
@@ -163,7 +167,7 @@ struct Spy : Allocator {
     if (logging) GLOG += " a" + std::to_string(id) + ":A" + std::to_string(n) + (f ? "!" : "");
     if (f) { nfailed++; return nullptr; }
     void* p = malloc(n ? n : 1);
-    live[p] = n;
+    live[p] = n; cur += n; if (cur > peak) peak = cur;
     return p;
   }
   void deallocate(void* p) override {
@@ -171,6 +175,7 @@ struct Spy : Allocator {
     if (logging) GLOG += " a" + std::to_string(id) + ":D";
     if (!live.count(p)) { bad = true; std::cout << "BADFREE" << std::endl; abort(); }
     memset(p, 0xDD, live[p]);
+    cur -= live[p];
     live.erase(p);
     free(p);
   }
@@ -186,7 +191,7 @@ struct Spy : Allocator {
     // always move the block so that stale pointers are caught by ASan
     void* q = malloc(n ? n : 1);
     if (p) { memcpy(q, p, old < n ? old : n); memset(p, 0xDD, old); live.erase(p); free(p); }
-    live[q] = n;
+    live[q] = n; cur += n; cur -= old; if (cur > peak) peak = cur;
     return q;
   }
   size_t liveBytes() const { size_t s = 0; for (auto& kv : live) s += kv.second; return s; }
@@ -199,6 +204,22 @@ struct CountingReader {
   size_t readBytes(char* b, size_t k) {
     char probe; uintptr_t a = (uintptr_t)&probe; if (a < lowStack) lowStack = a;
     size_t i = 0; while (i < k && pos < n) b[i++] = p[pos++]; return i; }
+};
+
+// std::streambuf that refills from the input in blocks of `bs` bytes (a file or socket buffer in miniature); it overrides
+// underflow() only, as a minimal user stream buffer does
+struct BlockBuf : std::streambuf {
+  const char* p; size_t n; size_t off = 0; size_t bs; std::vector<char> buf;
+  BlockBuf(const char* p_, size_t n_, size_t bs_) : p(p_), n(n_), bs(bs_ ? bs_ : 1), buf(bs_ ? bs_ : 1) { setg(buf.data(), buf.data(), buf.data()); }
+  int_type underflow() override {
+    if (gptr() < egptr()) return traits_type::to_int_type(*gptr());
+    if (off >= n) return traits_type::eof();
+    size_t k = n - off < bs ? n - off : bs;
+    memcpy(buf.data(), p + off, k); off += k;
+    setg(buf.data(), buf.data(), buf.data() + k);
+    return traits_type::to_int_type(*gptr());
+  }
+  size_t consumed() const { return off - (size_t)(egptr() - gptr()); }
 };
 
 // exactly-sized heap copy of the input, so that ASan sees any read beyond it
